@@ -201,6 +201,9 @@ func (w *world) get(key string, from, to int64, avoid bool) {
 			h.Stat("get.absent", 1)
 		}
 		h.Op("get %d %s %d %d %d %s", id, keyID(key), from, to, b2i(avoid), i64s(myClocks))
+		if why == "stale" && len(myClocks) >= 2 {
+			w.oracleStale(key, from, to, preRange.LoadedAtNano, myClocks[1])
+		}
 		mid := w.c.Snapshot()
 		h.Obs("load why=%s %s", why, entryLine(w.entry(mid, key)))
 		w.nextGen++
@@ -301,6 +304,14 @@ func (w *world) get(key string, from, to int64, avoid bool) {
 		w.lastN[k] = loadN
 		h.Stat("get.stored", 1)
 	}
+	// ---- oracle: exact accounting (Lean: run_exact) — c.size is the sum of rowsSize + len(rows) over the entries
+	acc := 0
+	for _, e := range after.Entries {
+		acc += e.RowsSize + len(e.Ranges)
+	}
+	if acc != after.Size {
+		h.Viol("size-accounting", "c.size=%d but the entries account for %d", after.Size, acc)
+	}
 	// ---- oracle: size bound (actual content, counted from the real maps)
 	if a := actualSize(after); a > w.maxSize+1+w.maxRows {
 		h.Viol("size-bound", "cache holds %d units (keys+ranges+rows) > approxMaxSize %d + 1 + largest load %d", a, w.maxSize, w.maxRows)
@@ -386,6 +397,37 @@ func (w *world) oracleServed(k kr, n, gen int, tLo, tHi int64, clocks []int64) {
 		w.sawValidMutable = true
 		h.Stat("hit.revalidated", 1)
 	}
+}
+
+// oracleStale: the two-sided reading of C24 (Lean: stale_iff). The real code found a cached range stale at check
+// clock tChk: some second of [max(from, edge second), to] must have been invalidated at a clock tAt with
+// loadedAt <= tAt + linger. Skipped when an earlier invalidate call read a later clock (hypothesis of the theorem).
+func (w *world) oracleStale(key string, from, to, loadedAt, tChk int64) {
+	if w.anyInval && w.maxInvalClock > tChk {
+		w.h.Stat("oracle.stale.skipped.clock-went-back", 1)
+		return
+	}
+	imm := tChk + cFromNs
+	edge := imm / nsPerSec
+	if imm%nsPerSec < 0 {
+		edge--
+	}
+	lo := from
+	if from*nsPerSec < imm {
+		lo = edge
+	}
+	for s, ats := range w.invals {
+		if s < lo || s > to {
+			continue
+		}
+		for _, at := range ats {
+			if loadedAt <= at+cLingerNs {
+				w.h.Stat("oracle.stale.justified", 1)
+				return
+			}
+		}
+	}
+	w.h.Viol("needless-reload", "get %s %d..%d (loaded at %d) was found stale at clock %d although no second of %d..%d was invalidated at or after loadedAt-linger", key, from, to, loadedAt, tChk, lo, to)
 }
 
 func (w *world) invalidate(secs []int64) {
